@@ -167,9 +167,10 @@ Dicts == DictsFor(Mentions(Root))
 MCNext ==
     \/ \E k \in Kinds : Choose(k)
     \/ want # "none" /\ \E nd \in Cands : WellFormed(nd) /\ Add(nd)
-    \/ /\ phase = "build" /\ DispVals # <<>>
-       /\ \E d \in E, i \in 1 .. Len(DispVals), impl \in Free :
+    \/ /\ DispVals # <<>> /\ want = "none" /\ cur = NoDict
+       /\ \E d \in E, i \in 1 .. Len(DispVals), impl \in (E \ Used) :
              /\ nodes[d].k = "ds" /\ nodes[d].tab # 0 /\ impl # d /\ KindOf(impl) \in {"fnapp", "ds", "val", "opt"}
+             /\ ~(\E t \in DOMAIN tabs : \E e \in 1 .. Len(tabs[t]) : tabs[t][e].n = impl)
              /\ ~(\E e \in 1 .. Len(tabs[nodes[d].tab]) : tabs[nodes[d].tab][e].v = DispVals[i])
              /\ Register(d, DispVals[i], impl)
     \/ Len(nodes) >= MinNodes /\ KindOf(Root) \in RootKinds /\ (RequireComplete => Complete) /\ cur = NoDict /\ want = "none"
@@ -289,7 +290,7 @@ FK_KindsB == {"opt", "fnapp", "ds", "cached", "with"}
 FK_Paths == {pA, pB, pSX, <<"S">>}
 FK_Consts == {I(1), Lv(<<I(0), I(1)>>)}
 FK_Fns == {"g"}
-FK_Bodies == {"f"}
+FK_Bodies == {"f", "none"}
 FK_Disp == <<I(1), Str("x")>>
 FK_Presets == {Dv([k \in {"A", "S"} |-> IF k = "A" THEN I(9) ELSE Dv([j \in {"X"} |-> I(8)])])}
 FK_Cbs == {"cb"}
@@ -318,6 +319,18 @@ FR_Raises == {<<"f", <<I(1)>>>>, <<"f", <<>>>>, <<"g", <<I(2)>>>>, <<"g", <<Tv("
 FR_Leaves == <<[p |-> pA, vals |-> {I(0), I(1), I(2), I(3)}, extra |-> FALSE],
                [p |-> pB, vals |-> {I(1), I(2)}, extra |-> FALSE],
                [p |-> <<"Z">>, vals |-> {I(7)}, extra |-> TRUE]>>
+
+\* family "dispatch" (C07): datasets with a dispatch, overloads registered before and between calls
+FD_Kinds == {"opt", "val", "fnapp", "ds"}
+FD_KindsB == {"opt", "fnapp", "ds"}
+FD_CbsB == {"cb"}
+FD_LeavesB == <<[p |-> <<"K">>, vals |-> {I(1), I(2)}, extra |-> FALSE]>>
+FD_Paths == {<<"K">>}
+FD_Consts == {I(1), I(5)}
+FD_Bodies == {"f", "h"}
+FD_Disp == <<I(1), Str("x")>>
+FD_Cbs == {"", "cb"}
+FD_Leaves == <<[p |-> <<"K">>, vals |-> {I(1), Str("x"), I(2)}, extra |-> FALSE]>>
 
 -----------------------------------------------------------------------------
 \* one self-contained CASE line per observation: the graph, the tables, the call and everything
